@@ -18,6 +18,18 @@ SHAPE = {'_child_': Z.f_child, 'left': Z.f_left, 'right': Z.f_right, '_var_': Z.
 isa = z3.Function('isa', Z.Str, Z.Node, Z.B)          # isinstance(node, <class name>)
 parent_now = z3.Function('parent_now', Z.Node, Z.ArrNN, Z.Node)   # node._parent_ (depends on eval_parent)
 cond_root = z3.Function('cond_root', Z.Node, Z.Node)  # node._conditions_root_
+static_parent = z3.Function('static_parent', Z.Node, Z.Node)   # node._node_.parent.data (or NoneNode)
+
+
+def parent_of(n, eval_parent):
+    ep = z3.Select(eval_parent, n)
+    return z3.If(ep != Z.NoneNode, ep, static_parent(n))
+
+
+def cond_pos_def(n, eval_parent):
+    """the library's own test for 'stands as a condition' (Variable / An / DomainMapping._evaluate__)"""
+    p = parent_of(n, eval_parent)
+    return z3.Or(n == cond_root(n), z3.And(p != Z.NoneNode, isa(str_const('LogicalOperator'), p)))
 
 
 def strc(s):
@@ -95,7 +107,8 @@ class LibModel:
             if name == '_conditions_root_':
                 return [(st, ZV(cond_root(n), 'node'))]
             if name == '_parent_':
-                return [(st, ZV(parent_now(n, st.fields['eval_parent']), 'optnode'))]
+                # SymbolicExpression._parent_ (symbolic.py): the evaluation parent if set, else the graph parent
+                return [(st, ZV(parent_of(n, st.fields['eval_parent']), 'optnode'))]
             if name == '_node_':
                 return [(st, Obj('rxnode', {'of': n}))]
             if name == 'operation':
@@ -404,7 +417,7 @@ class LibModel:
             elif o.sig == NEXT:
                 out.append((s3, NONE))
             elif o.sig == RAISE:
-                eng.pending_raises.append(Outcome(s3, RAISE, o.val)) if hasattr(eng, 'pending_raises') else None
+                eng.pending_raises.append(Outcome(s3, RAISE, o.val))
             else:
                 raise OutOfSubset(f"signal {o.sig} out of inlined {fd.name}", node)
         return out
